@@ -142,6 +142,55 @@ Definition c15_line (per : c15_periodic) (n : nat) (am : list nat) (nan : option
   | _ => seq 0 n
   end.
 
+(* ---------------------------------------------------------------- C'. per-face decisions and the builders' bookkeeping *)
+
+(* the whole PolyCollection conversion from the corner longitudes of the faces (in the frame of
+   the requested projection): the antimeridian table is computed from the shells, then the pipeline *)
+Definition c15_poly_full (per : c15_periodic) (m : nat) (faces : list (list Z))
+           (nan : option (list (bool * bool))) (pieces : list nat) (values : list Z) : c15_out :=
+  c15_poly per (length faces) (c15_am_faces m faces) nan pieces values.
+
+(* the same conversion told face by face: how many output polygons a face contributes *)
+Definition c15_face_rows (per : c15_periodic) (crosses : bool) (pieces : nat) : nat :=
+  match per with
+  | C15Exclude => if crosses then 0%nat else 1%nat
+  | C15Split => pieces
+  | C15Ignore => 1%nat
+  end.
+
+Definition c15_rows (per : c15_periodic) (m : nat) (faces : list (list Z)) (pieces : list nat) : list nat :=
+  flat_map (fun p => repeat (fst p)
+                       (c15_face_rows per (c15_crosses (c15_shell m (fst (snd p)))) (snd (snd p))))
+           (combine (seq 0 (length faces)) (combine faces pieces)).
+
+(* row at which the polygons of face i start under 'split' *)
+Definition c15_offset (pieces : list nat) (i : nat) : nat := fold_right Nat.add 0%nat (firstn i pieces).
+
+(* the side tables the builder leaves behind (Grid._poly_collection_cached_parameters / the returned
+   index table) *)
+Record c15_tables := { t_am : list nat; t_non_nan : option (list nat); t_c2o : list nat }.
+
+Definition c15_poly_tables (per : c15_periodic) (m : nat) (faces : list (list Z))
+           (nan : option (list (bool * bool))) (pieces : list nat) : c15_tables :=
+  let am := c15_am_faces m faces in
+  {| t_am := am;
+     t_non_nan := match nan with Some fl => Some (c15_where_nonan (c15_delete am fl)) | None => None end;
+     t_c2o := match per with
+              | C15Exclude => c15_delete am (seq 0 (length faces))
+              | C15Split => c15_split_map pieces
+              | C15Ignore => []
+              end |}.
+
+(* UxDataArray.to_polycollection: the data re-indexed with side tables read back from the grid *)
+Definition c15_da_from_tables (per : c15_periodic) (t : c15_tables) (values : list Z) : list Z :=
+  match per with
+  | C15Exclude =>
+      let dat := c15_delete (t_am t) values in
+      match t_non_nan t with Some nn => c15_gather 0 dat nn | None => dat end
+  | C15Split => c15_gather 0 values (t_c2o t)
+  | C15Ignore => values
+  end.
+
 (* ---------------------------------------------------------------- D. cache state machines *)
 
 Record c15_args := { a_periodic : Z; a_projection : Z; a_engine : Z; a_cache : bool; a_override : bool }.
